@@ -382,6 +382,8 @@ def check_aborts(ctx):
 
 
 def check(ctx):
+    from . import c17 as _c17
+    _c17.check_current(ctx)        # a failure is not reported after the CURRENT switch took effect (the caller would delete the live MANIFEST)
     check_status_not_overwritten(ctx)
     from . import tablefmt as _tf2
     _tf2.check_twoiter_status(ctx)   # an error met while skipping blocks stays visible
